@@ -17,5 +17,5 @@ rsync -a --exclude .git --exclude 'build/*.lock' /verif/ "$VM"/
 sed -i "s#=> /repo#=> $VR#" "$VM"/go/impl/go.mod "$VM"/go/gotab/go.mod
 cd "$VM" && VERIF_REPO="$VR" timeout 1800 ./check "$PID" --tier "$TIER"; rc=$?
 echo "exit=$rc"
-git -C /repo worktree remove --force "$VR"; rm -rf "$VM"
+[ -n "${KEEP:-}" ] || { git -C /repo worktree remove --force "$VR"; rm -rf "$VM"; }
 exit $rc
